@@ -219,7 +219,10 @@ func genHistory(seed uint64, idx int, thorough bool) (spec.Run, c10Meta) {
 	case "bits-sweep":
 		ts := focus
 		for i := 0; i < 3; i++ {
-			in := genInfo(r, ts, genOpt{maxDim: maxDim, allowOdd16: true, signed: true})
+			// the first description of every sweep is the 16-allocated / <=8-stored container: its
+			// size clause is a known finding for nine codecs, its other clauses (caller buffers,
+			// order, independence) are not and must stay watched there too
+			in := genInfo(r, ts, genOpt{maxDim: maxDim, allowOdd16: true, forceOdd16: i == 0, signed: true})
 			if ts == "rle" && r.Bool() {
 				in.W, in.H = 2*r.Intn(8)+1, 2*r.Intn(8)+1 // odd frame lengths
 				in.BA, in.BS, in.HB = 8, 8, 7
